@@ -8,6 +8,8 @@ from .. import bits, fields
 from ..core import call_attr, calls_in, const, dotted, is_const, kwarg, norm, slice_parts, text, walk_local
 
 EXPLANATION = [
+    'C01.error-status-only: HCI_StatusReturnParameters.from_parameters returns a bare HCI_StatusReturnParameters on the error-status branch, without trying the command-specific fields.',
+    'C01.absolute-offsets: HCI_Dataclass_Object.parse_from_bytes passes its (data, offset) on unchanged and returns the absolute offset (no parsing of a re-based slice).',
     'C01.empty-payload: the from_bytes of HCI_AclDataPacket / HCI_SynchronousDataPacket / HCI_IsoDataPacket never reject a packet on the truthiness of its payload slice (an empty payload is a legal value).',
     'C01.parsed-verbatim: in every function of bumble.hci that binds names with struct.unpack / unpack_from, no such name is afterwards replaced by a value that does not depend on it (zeroed, defaulted): parsed fields reach the object as read.',
     'C01.return-parameters-fields: every HCI return-parameters dataclass that declares fields of its own gets a wire layout: passed to sync_command(...) or given `fields` explicitly.',
@@ -712,7 +714,47 @@ def empty_payload(ctx):
     R.check(n == 3, rule, 'bumble.hci | data packet parsers', '3 parsers', f'{n} found')
 
 
+def absolute_offsets(ctx):
+    """Field parsers return the absolute offset after the field (HCI_Object.parse_field computes a field's size as
+    new_offset - offset): HCI_Dataclass_Object.parse_from_bytes passes its `data` and `offset` on unchanged - parsing a
+    slice from 0 returns a size, and every element of a list after the first then starts at the wrong place."""
+    R, p = ctx.r, ctx.p
+    rule = 'C01.absolute-offsets'
+    fn = p.find('bumble.hci.HCI_Dataclass_Object.parse_from_bytes')
+    if fn is None:
+        R.bad(rule, 'bumble.hci.HCI_Dataclass_Object.parse_from_bytes', 'anchor missing')
+        return
+    params = [a.arg for a in fn.args.args if a.arg not in ('cls', 'self')]
+    calls = [c for c in calls_in(fn) if call_attr(c) in ('dict_and_offset_from_bytes', 'dict_from_bytes')]
+    ok = len(calls) == 1 and len(params) >= 2 and len(calls[0].args) >= 2 and norm(calls[0].args[0]) == params[0] and norm(calls[0].args[1]) == params[1]
+    R.check(ok, rule, 'bumble.hci.HCI_Dataclass_Object.parse_from_bytes', f'parses ({params[0]}, {params[1]}) as given', f'the object is parsed from `{norm(calls[0].args[0]) if calls else "?"}` at `{norm(calls[0].args[1]) if calls and len(calls[0].args) > 1 else "?"}`: what comes back is an offset relative to that view, but the caller takes it for an absolute one - the second and later reports of a multi-report event are read from the wrong position', p.loc(fn))
+    sub = [s_ for s_ in ast.walk(fn) if isinstance(s_, ast.Subscript) and isinstance(s_.slice, ast.Slice) and norm(s_.value) == params[0]] if params else []
+    R.check(not sub, rule, 'bumble.hci.HCI_Dataclass_Object.parse_from_bytes | no re-based view', 'the buffer is not sliced', f'`{norm(sub[0]) if sub else ""}` re-bases the buffer', p.loc(sub[0]) if sub else p.loc(fn))
+
+
+def error_status_only(ctx):
+    """A Command Complete with an error status carries the status only: HCI_StatusReturnParameters.from_parameters returns
+    a bare HCI_StatusReturnParameters on that branch and does not try the command-specific layout (byte-array and enum
+    fields parse "successfully" out of no data at all)."""
+    R, p = ctx.r, ctx.p
+    rule = 'C01.error-status-only'
+    fn = p.find('bumble.hci.HCI_StatusReturnParameters.from_parameters')
+    if fn is None:
+        R.bad(rule, 'bumble.hci.HCI_StatusReturnParameters.from_parameters', 'anchor missing')
+        return
+    branches = [i_ for i_ in walk_local(fn) if isinstance(i_, ast.If) and 'SUCCESS' in norm(i_.test)]
+    R.check(len(branches) == 1, rule, 'bumble.hci.HCI_StatusReturnParameters.from_parameters | status test', 'one test of the status', f'{len(branches)} tests', p.loc(fn))
+    for i_ in branches:
+        err = i_.body if isinstance(i_.test, ast.Compare) and isinstance(i_.test.ops[0], ast.NotEq) else i_.orelse
+        parses = [c for s_ in err for c in calls_in(s_) if call_attr(c) in ('dict_from_bytes', 'dict_and_offset_from_bytes') or norm(c.func) == 'cls']
+        rets = [r for s_ in err for r in ast.walk(s_) if isinstance(r, ast.Return)]
+        ok = bool(rets) and not parses and all(isinstance(r.value, ast.Call) and call_attr(r.value) == 'HCI_StatusReturnParameters' for r in rets)
+        R.check(ok, rule, 'bumble.hci.HCI_StatusReturnParameters.from_parameters | error branch', 'returns the bare status', f'with an error status the command-specific layout is tried (`{norm(parses[0])[:50] if parses else ""}`): fields whose parsers accept missing data are filled with invented values, the event no longer parses back to what was sent', p.loc(parses[0]) if parses else p.loc(i_))
+
+
 RULES = [
+    ('C01.error-status-only', error_status_only),
+    ('C01.absolute-offsets', absolute_offsets),
     ('C01.empty-payload', empty_payload),
     ('C01.parsed-verbatim', parsed_verbatim),
     ('C01.return-parameters-fields', return_parameters_fields),
